@@ -167,8 +167,15 @@ def check_pty(case, col=None):
                 child.close()
             closed = True
         elif how == 'close-refused':
-            with guard('expect READY'):
-                child.expect('READY')
+            try:
+                with guard('expect READY', allow=(EOF, TIMEOUT)):
+                    child.expect('READY')
+            except (EOF, TIMEOUT):
+                # the child never got as far as installing its traps (a starved machine): the history did not happen
+                if col is not None:
+                    col.label('close-not-refused')
+                    col.discarded += 1
+                return
             refused = False
             with guard('close(force=False)', allow=(pexpect.ExceptionPexpect,)):
                 try:
